@@ -343,8 +343,8 @@ def br_submit(c):
                                                 len(W.fills) == 0), props=['C04', 'C01', 'C02'])
 
 
-canary('order for unknown portfolio queued', SimulatedBroker, 'submit_order',
-       'if portfolio_id not in self.portfolios.keys():', 'if False:')(br_submit)
+canary('order for unknown portfolio refused with the wrong error type', SimulatedBroker, 'submit_order',
+       'raise KeyError(', 'raise ValueError(')(br_submit)
 canary('submission fills immediately', SimulatedBroker, 'submit_order',
        'self.open_orders[portfolio_id].put(order)', 'self.open_orders[portfolio_id].put(order); self._execute_order(self.current_dt, portfolio_id, order)')(br_submit)
 
@@ -809,5 +809,57 @@ def _sorted_fact(G, i, j):
     return z3.Implies(z3.And(0 <= i, i < j, j < z3.Length(s)), O_DIR(s[i]) <= O_DIR(s[j]))
 
 
+def _stable_partition(orders):
+    return [o for o in orders if o[1] < 0] + [o for o in orders if o[1] >= 0]
+
+
 def br_update_conc(c):
-    raise Unmodelled('concrete mode of update: see br_update_conc (pending)')
+    """the same clauses evaluated natively on a REAL broker (two portfolios, two assets, real queues and orders)"""
+    import traceback as _tb
+    p0, p1, a0, a1 = c.key('p0'), c.key('p1'), c.key('a0'), c.key('a1')
+    W = RealWorld(c, [p0, p1], [a0, a1])
+    b = W.b
+    now = b.current_dt
+    import pandas as pd
+    dt = c.time('dt') if 'dt' in c.values or c.rng is None else now + pd.Timedelta(seconds=c.rng.choice([0, 0, 3600, 86400, -3600]))
+    c.values.setdefault('dt', float(dt.timestamp()))
+    pre = W.pre
+    try:
+        b.update(dt)
+        r = 'ok'
+    except (ValueError, KeyError, TypeError, AttributeError) as e:
+        r = type(e).__name__
+        frames = [f.name for f in _tb.extract_tb(e.__traceback__) if f.filename.endswith('portfolio/portfolio.py')]
+        site = 'Portfolio.%s' % (frames[0] if frames else '?')
+    if r != 'ok':
+        c.ob('raises-only-documented-type-ValueError', r == 'ValueError', props=['C15'], raise_site=site)
+        for n, f in protected_unchanged_conc(W, pre):
+            c.ob('unchanged-on-raise@%s/%s' % (site, n), f, props=['C15'], raise_site=site)
+        return
+    c.ob('clock-set-to-dt', EQ(b.current_dt, dt), kind='A')
+    c.ob('all-quotes-read-at-dt', all(q[1] == dt for q in W.queries), props=['C07'])
+    c.ob('portfolio-set-and-master-cash-untouched', W.all_same(pre, ('portfolios', 'master')), props=['C01', 'C04'])
+    opened = b.exchange.is_open_at_datetime(dt)
+    mid = lambda a: b.data_handler.get_asset_latest_mid_price(dt, a)
+    if not opened:
+        c.ob('closed/pending-orders-untouched', W.all_same(pre, ('pending',)), props=['C04'])
+        c.ob('closed/cash-holdings-history-untouched', AND(W.all_same(pre, ('cash', 'holdings', 'history')), len(W.fills) == 0), props=['C04', 'C01', 'C02'])
+        c.ob('closed/held-assets-marked-at-mid-of-dt-others-untouched',
+             all(EQ(W.price_(p, a), mid(a)) for p in pre['pf'] for a in pre['pf'][p]['pos']), props=['C02'])
+        return
+    pend = {p: [(x[0], x[1]) for x in pre['pf'][p]['pending']] for p in pre['pf']}
+    fills = [(f['p'], f['asset'], f['quantity']) for f in W.fills]
+    c.ob('open/all-queues-drained', all(W.pending_empty(p) for p in pre['pf']), props=['C04'])
+    c.ob('open/fills-of-a-portfolio-are-its-pending-orders-sells-first-in-submission-order',
+         all([(a, q) for (pp, a, q) in fills if pp == p] == _stable_partition(pend[p]) for p in pre['pf']), props=['C04', 'C18'])
+    qs = [q for (_, _, q) in fills]
+    c.ob('open/no-buy-executed-before-a-sell-in-one-update', all(not (qs[i] > 0 and qs[j] < 0) for i in range(len(qs)) for j in range(i + 1, len(qs))), props=['C04'])
+    c.ob('open/each-batched-order-filled-exactly-once', len(fills) == sum(len(v) for v in pend.values()), props=['C04', 'C01'])
+    c.ob('open/fill-stamped-and-quoted-at-dt', all(f['dt'] == dt for f in W.fills), props=['C05', 'C07'])
+    for p in pre['pf']:
+        cost = sum(f['price'] * f['quantity'] + f['commission'] for f in W.fills if f['p'] == p)
+        c.ob('open/cash-moves-only-by-the-fills', EQ(W.cash(p), W.cash(p, pre) - cost, abs(cost) + abs(W.cash(p, pre))), props=['C01'])
+        for a in (a0, a1):
+            nq = sum(f['quantity'] for f in W.fills if f['p'] == p and f['asset'] == a)
+            c.ob('open/holding-is-previous-plus-filled-quantity', EQ(W.qty_(p, a), W.qty_(p, a, pre) + nq), props=['C02'])
+            c.ob('open/held-iff-net-quantity-nonzero', W.held_(p, a) == (W.qty_(p, a) != 0), props=['C02'])
